@@ -106,6 +106,14 @@ MAPSUB = '''@move
 def mapsubq(n: int):
     return ilist.map(leafq, ilist.range(n))
 
+@move
+def sharedmoveq(n: int):
+    d = schedule.device_fn(tkq, ilist.IList([0, 1, 2]), ilist.IList([0, 1]))
+    d(n)
+    r = schedule.reverse(d)
+    r(n)
+    return n
+
 '''
 
 NESTED = '''@move{inner_dec}
@@ -131,6 +139,7 @@ def outerq(n: int):
 LIB_CALL = '''    dq = schedule.device_fn(tkq, ilist.IList([0, 1, 2]), ilist.IList([0, 1]))
     dq(1)
     mq = mapsubq(2)
+    sq = sharedmoveq(2)
     move_by_waypoints(ilist.IList([spec.get_static_trap(zone_id="A"), grid.shift(spec.get_static_trap(zone_id="A"), 1.0, 2.0)]), True, True)
 '''
 
@@ -183,7 +192,7 @@ def run(ctx):
     lib = library_methods()
     lib_ir0 = {n: ir_text(m) for n, m in lib.items()}
     g = L.MoveGen(rng, {"unknown": 0.0, "assert": 0.0, "closures": True, "recursion": True, "alias_subs": 0.0})
-    n_mod = 40 if ctx.tier == "thorough" else 8
+    n_mod = 40 if ctx.tier == "thorough" else 12
     args = [(1, 1, True), (2, 0, False)]
     for mi in range(n_mod):
         n_roots = rng.randrange(2, 5)
@@ -193,6 +202,7 @@ def run(ctx):
             ref_mod = T.load_source(module_source(helpers, roots, list(range(n_roots)), [None] * n_roots), "c07ref")
         except Exception as e:  # noqa: BLE001
             ctx.count("compile_fail")
+            ctx.count("compile_fail:" + type(e).__name__ + ":" + str(e)[:80].replace("\n", " "))
             continue
         orders = list(itertools.permutations(range(n_roots))) if n_roots <= 3 else \
             [tuple(rng.sample(range(n_roots), n_roots)) for _ in range(4)]
@@ -209,6 +219,9 @@ def run(ctx):
                 mod = T.load_source(module_source(helpers, roots, order, assign), "c07")
             except Exception as e:  # noqa: BLE001
                 ctx.count("spec_compile_rejected")
+                # the same module compiles when nothing is specialised: the history cannot be checked
+                ctx.disagree(case, f"compiling with the specs raised {type(e).__name__}: {str(e)[:200]}",
+                             "the module compiles when no kernel is given a spec", "spec-compile-raised")
                 continue
             ctx.count("histories")
             ctx.seen((mi, order, tuple(assign)), len(set(assign)) > 1)
@@ -260,5 +273,5 @@ def run(ctx):
                     spec_canon[k] = canon_spec(s)
         if mi == 0:
             ctx.sample({"module": module_source(helpers, roots, list(range(n_roots)), [f"s{i % 2}" for i in range(n_roots)])[len(L.HDR):][:2500]})
-    if ctx.counts.get("histories", 0) < 5:
+    if ctx.counts.get("histories", 0) < 5 and not ctx.disagreements:
         raise HarnessFault(f"generator degenerate: {ctx.counts}")
